@@ -175,24 +175,46 @@ def _r20d(rep):
 
 
 def _r20e(rep):
+    """What get_eos returns for each documented name: the if/elif spelling and the table spelling ({name: f}.get(eos,
+    default) / table[eos]) are both read as a map name -> function, evaluated at the three names."""
     ge = core.find_def(EOS, "get_eos")
+    par = ge.args.args[0].arg
+    table, default = {}, None
     top = [s for s in ge.body if isinstance(s, ast.If)]
-    if not top:
-        raise AnalysisError("get_eos: dispatch vanished")
-    node = top[-1]
-    table = {}
-    while isinstance(node, ast.If):
-        t = node.test
-        if isinstance(t, ast.Compare) and core.src(t.left) == "eos" and isinstance(t.ops[0], ast.Eq) and isinstance(t.comparators[0], ast.Constant):
-            table[t.comparators[0].value] = core.src(node.body[0])
-        nxt = node.orelse
-        if len(nxt) == 1 and isinstance(nxt[0], ast.If):
-            node = nxt[0]
-        else:
-            table["<default>"] = core.src(nxt[0]) if nxt else "<none>"
-            break
-    for k, v in (("murnaghan", "return murnaghan"), ("birch_murnaghan", "return birch_murnaghan"), ("<default>", "return vinet")):
-        rep.instance("R20e", EOS, "get_eos", f"{k} -> {table.get(k)}", table.get(k) == v, f"EOS name '{k}' does not dispatch to '{v}'", line=ge.lineno, obligation=True)
+    rets = [s for s in ge.body if isinstance(s, ast.Return) and s.value is not None]
+    if top:
+        node = top[-1]
+        while isinstance(node, ast.If):
+            t = node.test
+            if isinstance(t, ast.Compare) and core.src(t.left) == par and isinstance(t.ops[0], ast.Eq) and isinstance(t.comparators[0], ast.Constant) and node.body and isinstance(node.body[0], ast.Return):
+                table.setdefault(t.comparators[0].value, core.src(node.body[0].value))
+            nxt = node.orelse
+            if len(nxt) == 1 and isinstance(nxt[0], ast.If):
+                node = nxt[0]
+            else:
+                if nxt and isinstance(nxt[0], ast.Return):
+                    default = core.src(nxt[0].value)
+                elif not nxt and rets:
+                    default = core.src(rets[-1].value)
+                break
+    elif rets:
+        v = core.resolve_name(ge, rets[-1].value)
+        d = None
+        if isinstance(v, ast.Call) and isinstance(v.func, ast.Attribute) and v.func.attr == "get" and v.args and core.src(v.args[0]) == par:
+            d = core.resolve_name(ge, v.func.value)
+            default = core.src(v.args[1]) if len(v.args) > 1 else "None"
+        elif isinstance(v, ast.Subscript) and core.src(v.slice) == par:
+            d = core.resolve_name(ge, v.value)
+            default = "<KeyError>"
+        if isinstance(d, ast.Dict):
+            for k, val in zip(d.keys, d.values):
+                if isinstance(k, ast.Constant):
+                    table.setdefault(k.value, core.src(val))
+    if not table:
+        raise AnalysisError("get_eos: dispatch vanished (neither an if/elif chain on the name nor a table lookup)")
+    for k, v in (("murnaghan", "murnaghan"), ("birch_murnaghan", "birch_murnaghan"), ("vinet", "vinet")):
+        got = table.get(k, default)
+        rep.instance("R20e", EOS, "get_eos", f"'{k}' -> {got}", got == v, f"get_eos('{k}') returns {got}, not the function {v}: the fit silently uses another equation of state (every equation of state passes the checks of its own defining meaning)", line=ge.lineno, obligation=True)
 
 
 def _loopvar(fn, where):
@@ -557,4 +579,6 @@ def selftest():
     n("thermal expansion vectorised into a float array", QHA, "        beta = [0.0]\n        for i in range(1, self._num_elems - 1):\n            dt = self._temperatures[i + 1] - self._temperatures[i - 1]\n            dv = self._equiv_volumes[i + 1] - self._equiv_volumes[i - 1]\n            beta.append(dv / dt / self._equiv_volumes[i])\n", "        beta = np.zeros(len(self._temperatures) - 1, dtype=\"double\")\n        dt = self._temperatures[2:] - self._temperatures[:-2]\n        dv = self._equiv_volumes[2:] - self._equiv_volumes[:-2]\n        beta[1:] = dv / dt / self._equiv_volumes[1:-1]\n")
     b("thermal expansion vectorised into an array of the temperatures' dtype", QHA, "        beta = [0.0]\n        for i in range(1, self._num_elems - 1):\n            dt = self._temperatures[i + 1] - self._temperatures[i - 1]\n            dv = self._equiv_volumes[i + 1] - self._equiv_volumes[i - 1]\n            beta.append(dv / dt / self._equiv_volumes[i])\n", "        beta = np.zeros_like(self._temperatures[:-1])\n        dt = self._temperatures[2:] - self._temperatures[:-2]\n        dv = self._equiv_volumes[2:] - self._equiv_volumes[:-2]\n        beta[1:] = dv / dt / self._equiv_volumes[1:-1]\n", "R20i", "zeros_like")
     b("vectorised thermal expansion divides by the volume one row up", QHA, "        beta = [0.0]\n        for i in range(1, self._num_elems - 1):\n            dt = self._temperatures[i + 1] - self._temperatures[i - 1]\n            dv = self._equiv_volumes[i + 1] - self._equiv_volumes[i - 1]\n            beta.append(dv / dt / self._equiv_volumes[i])\n", "        beta = np.zeros(len(self._temperatures) - 1, dtype=\"double\")\n        dt = self._temperatures[2:] - self._temperatures[:-2]\n        dv = self._equiv_volumes[2:] - self._equiv_volumes[:-2]\n        beta[1:] = dv / dt / self._equiv_volumes[2:]\n", "R20f", "beta_i")
+    b("EOS table with a misspelt key", EOS, '    if eos == "murnaghan":\n        return murnaghan\n    elif eos == "birch_murnaghan":\n        return birch_murnaghan\n    else:\n        return vinet', '    fs = {"vinet": vinet, "murnaghan": murnaghan, "birch_murnagahan": birch_murnaghan}\n    return fs.get(eos, vinet)', "R20e", "birch_murnaghan")
+    n("EOS dispatch as a table", EOS, '    if eos == "murnaghan":\n        return murnaghan\n    elif eos == "birch_murnaghan":\n        return birch_murnaghan\n    else:\n        return vinet', '    fs = {"vinet": vinet, "murnaghan": murnaghan, "birch_murnaghan": birch_murnaghan}\n    return fs.get(eos, vinet)')
     return V
